@@ -1,8 +1,9 @@
 #!/usr/bin/env python3
 """prints the prompt given to a mutation-seeding sub-agent for one property: only the property text
-and the path of its scratch worktree - nothing from /verif."""
+and the path of its scratch worktree - nothing from /verif. Optional third arg: an extra hint line."""
 import json, sys
 pid, wt = sys.argv[1], sys.argv[2]
+extra = sys.argv[3] if len(sys.argv) > 3 else ""
 for l in open('/verif/properties.jsonl'):
     p = json.loads(l)
     if p['id'] == pid:
@@ -17,13 +18,13 @@ STATEMENT: {p['statement']}
 QUANTIFIED OVER: {p['quantifier']['text']}
 RELEVANT FILES: {', '.join(p['anchors']['files'])}
 MECHANISMS: {'; '.join(m['name'] + ' (' + m['where'] + ')' for m in p['anchors']['mechanism'])}
-
-TASK: produce ONE realistic change (a plausible bug a developer could introduce: a refactor slip, an off-by-one, a wrong condition, a dropped case, two cooperating sites that each look fine alone) to the Go source in {wt} that BREAKS this property while the code still compiles and the EXISTING test suite still passes. The change must need something specific to manifest (an unusual input, a particular multi-step sequence, a particular interleaving or fault, a rarely used option) - not something ordinary use would expose at once. Keep the patch small (typically 1-15 changed lines) and do not touch *_test.go files, testdata, or docs.
+{extra}
+TASK: produce ONE realistic change (a plausible bug a developer could introduce: a refactor slip, an off-by-one, a wrong condition, a dropped case, two cooperating sites that each look fine alone) to the Go source in {wt} that BREAKS this property while the code still compiles and the EXISTING test suite still passes. The change must need something specific to manifest (an unusual input, a particular multi-step sequence, a particular interleaving or fault, a rarely used option or combination) - not something ordinary use would expose at once. Keep the patch small (typically 1-15 changed lines) and do not touch *_test.go files, testdata, docs, or files named verif_hooks.go.
 
 Environment: no network. Use these env vars for every go command: GOFLAGS=-mod=mod GOPROXY=off (do NOT set GOTOOLCHAIN or GOSUMDB). Build tag used by the Makefile: -tags stringlabels. Run the relevant package tests (e.g. `go test -count=1 ./internal/... ./cmd/...`) to confirm they still pass with your change; the full suite takes a few minutes.
 
 DELIVERABLES (write them into {wt}/SEED/):
  1. patch.diff  - `git diff` of your source change (source files only; not the SEED directory).
- 2. a demonstration: a small Go test file or program (put it in SEED/, say how to run it, e.g. copy to a package dir and `go test -run X`) that FAILS with your change and PASSES without it, exercising the property's observable behaviour.
- 3. meta.json - {{"property": "{pid}", "summary": "...what the change does...", "needs": "...what specific input/sequence/schedule makes it manifest...", "ran": ["commands you ran and their outcome"]}}
+ 2. a demonstration: a small Go test file, Go program or shell script (put it in SEED/, say how to run it, e.g. copy to a package dir and `go test -run X`) that FAILS with your change and PASSES without it, exercising the property's observable behaviour.
+ 3. meta.json - {{"property": "{pid}", "summary": "...what the change does...", "needs": "...what specific input/sequence/schedule makes it manifest...", "demo": "exact command(s) to run the demonstration from the worktree root", "ran": ["commands you ran and their outcome"]}}
 Verify yourself that (a) the project builds, (b) the existing tests of the touched packages and ./cmd/pint pass with the change, (c) the demonstration fails with the change and passes without it (use `git stash` or `git apply -R`). Leave the worktree with the change applied. In your final answer give a 5-line summary.""")
